@@ -13,6 +13,9 @@ from ..common import Inconclusive
 from . import c14
 
 
+from ..summaries import deref_val
+
+
 def is_stdout_write(n):
     return bool(re.search(r"<(std::io::)?(StdoutLock<.*>|Stdout) as (std::io::)?Write>::(write_all|write|write_fmt|write_vectored)$", n)) or \
         n in ("std::io::_print", "_print", "std::io::stdio::_print")
@@ -80,6 +83,22 @@ def concrete_battery(binp, X=()):
     v = None
     if r["rc"] != 0 or r["out"] not in ("", "\n"): v = f"empty stdin: rc={r['rc']} stdout={r['out']!r}"
     out.append(("empty", v, r))
+    src3 = "local   a  =   1\nlocal   b  =   2\nlocal   c  =   3\n"
+    for nm, a1, a2 in (("range-end-only", ["--range-end", "17"], ["--range-start", "0", "--range-end", "17"]), ("range-start-only", ["--range-start", "18"], ["--range-start", "18", "--range-end", "51"])):
+        r1, r2 = stdin_oracle(binp, src3, X + a1), stdin_oracle(binp, src3, X + a2)
+        wantf, _ = format_via_file(binp, src3, X + a1)
+        v = None
+        if r1["out"] != r2["out"]: v = f"{a1} and {a2} select the same statements but print different text"
+        elif r1["out"] != wantf: v = f"stdout under {a1} differs from the file-mode result"
+        elif r1["out"] == format_via_file(binp, src3, X)[0]: v = f"{a1} formats the whole input"
+        out.append((nm, v, r1))
+    bom = "\ufeff" + "local   x  =   1\r\nlocal   y  =   { 1,2 }"
+    r = clireplay.run_cli(binp, {".styluaignore": "ignored.lua\n"}, X + ["--respect-ignores", "--stdin-filepath", "ignored.lua", "-"], stdin=bom)
+    out.append(("ignored-passthrough-bom", None if r["out"].encode() == bom.encode() else "ignored stdin path with a byte order mark is not passed through byte for byte", r))
+    r = stdin_oracle(binp, bom, X)
+    wantb = clireplay.run_cli(binp, {"f.lua": bom}, X + ["f.lua"])
+    out.append(("parse-error-bom", None if (r["rc"] == 0) == (wantb["rc"] == 0) and (r["rc"] != 2 or r["out"] == "") else
+                f"stdin with a byte order mark: rc={r['rc']} stdout {len(r['out'])} bytes, file mode rc={wantb['rc']}", r))
     src2 = "local x = 1\r\nlocal y = 2"
     want2, _ = format_via_file(binp, src2, X)
     r = stdin_oracle(binp, src2, X)
@@ -180,7 +199,63 @@ def run(ses, rep):
                     flagged.append((f"{f.name}/no-direct-output", "the stdin worker writes to stdout or the file system directly", "valid"))
             rep.add(f"{f.name}/path{pi}/explored", "unsat", "no fs mutation / stdout write in the stdin worker closure") if not find_calls(o.trace, lambda n_: clihooks.is_fs_mutation(n_) or is_stdout_write(n_)) else None
             rep.queries += 0
+    flagged += range_wiring(ses, rep)
     confirm(rep, flagged)
+
+
+def range_wiring(ses, rep):
+    """W  the range handed to the library is Range::from_values(opt.range_start, opt.range_end) exactly when either option is given
+    (format() up to the walker set-up, both options symbolic)"""
+    flagged = []
+    ex = ses.executor("bin", "default", hooks=[clihooks.silence_logging], inline=lambda n_, f: False)
+    fn = ses.need(ex, "format")
+
+    def stop(ex_, st, callee, args, dty):
+        if canon(callee).split("::")[-1] in ("current_dir",) or canon(callee).endswith("WalkBuilder::new"):
+            return ("panic", "stop:range-computed")
+        return NotImplemented
+    ex.hooks = [stop] + ex.hooks
+    ex.max_block_visits = 2
+    opt = ex.fresh_lazy(fn.params[0][1], "opt")
+    outs = ex.run(fn, [opt])
+    T = ex.enums
+    n = 0
+    rlocs = [loc for loc, ty in fn.locals.items() if re.fullmatch(r"(std::option::)?Option<(stylua_lib::)?Range>", ty.strip())]
+    for pi, o in enumerate(outs):
+        if o.kind != "panic" or "stop:range-computed" not in str(o.value):
+            continue
+        st = o.state
+        fid = st.stack[0].fid if st.stack else None
+        vals = [deref_val(ex, st, st.store[(fid, loc)]) for loc in rlocs if (fid, loc) in st.store]
+        vals = [v for v in vals if isinstance(v, (Agg, Lazy))]
+        if not vals:
+            continue
+        n += 1
+        fields = {nm: ex.lazy_tab.get((opt.oid, ("field", T.field_index("Opt", nm)))) for nm in ("range_start", "range_end")}
+        given = z3.Or([ex.discr(st, f_) == 1 for f_ in fields.values() if f_ is not None] or [z3.BoolVal(False)])
+        if any(f_ is None for f_ in fields.values()):
+            # an option that is never read cannot influence the range
+            missing = [k for k, f_ in fields.items() if f_ is None]
+            r, m = ses.obligation(f"range-wiring/path{pi}/both-options-are-read", list(o.pc), z3.BoolVal(True), "format() reads --range-start and --range-end")
+            flagged.append((f"range-wiring/path{pi}/both-options-are-read", f"format() decides the range without reading {missing}", "range", []))
+            continue
+        R = vals[-1]
+        is_some = z3.BoolVal(R.variant == "Some") if isinstance(R, Agg) else ex.discr(st, R) == 1
+        oid = f"range-wiring/path{pi}/some-iff-an-option-is-given"
+        r, m = ses.obligation(oid, list(o.pc), is_some != given, "range is Some iff --range-start or --range-end is given")
+        if r == "sat":
+            which = [k for k, f_ in fields.items() if m.eval(ex.discr(st, f_), model_completion=True).as_long() == 1]
+            flagged.append((oid, f"with {which or 'no range option'} given the library is handed {'a' if z3.is_true(m.eval(is_some, model_completion=True)) else 'NO'} range", "range", []))
+        fv = find_calls(o.trace, lambda n_: n_.endswith("Range::from_values"))
+        if fv and isinstance(R, Agg) and R.variant == "Some":
+            a = [deref_val(ex, st, x) for x in fv[-1][1]]
+            ok = len(a) == 2 and all(isinstance(x, Lazy) and isinstance(f_, Lazy) and x.oid == f_.oid for x, f_ in zip(a, fields.values()))
+            r, m = ses.obligation(f"range-wiring/path{pi}/from_values(start,end)", list(o.pc), z3.BoolVal(not ok), "Range::from_values(opt.range_start, opt.range_end)")
+            if r == "sat":
+                flagged.append((f"range-wiring/path{pi}/from_values(start,end)", "the range is not built from (--range-start, --range-end) in that order", "range", []))
+    if n == 0:
+        raise Inconclusive("format(): the range computation was not reached")
+    return flagged
 
 
 def outfmt_flags(ex, env, m):
@@ -215,7 +290,7 @@ def confirm(rep, flagged):
             bat = bats[flags]
             if any(v for v, _ in bat.values()):
                 break
-        cands = [kind] if kind in bat else list(bat)
+        cands = [k for k in bat if k == kind or k.startswith(kind + "-")] or list(bat)
         if kind == "fs":
             cands = list(bat)
         hit = None
